@@ -387,6 +387,15 @@ main_c02(void)
     }
 
     idx_ret = tsk_table_collection_build_index(&t, 0);
+#ifdef FREE_INDEX
+    /* a user-supplied (possibly stale) index: every entry of both orders is a free 32-bit value */
+    if (idx_ret == 0) {
+        for (j = 0; j < NE; j++) {
+            t.indexes.edge_insertion_order[j] = id32("ii", j);
+            t.indexes.edge_removal_order[j] = id32("io", j);
+        }
+    }
+#endif
     ret = tsk_treeseq_init(&ts, &t, 0);
 
     /* the oracle, evaluated in the documented dependency order */
@@ -397,6 +406,36 @@ main_c02(void)
     spec = spec && spec_sites();
     spec = spec && spec_mutations();
     spec = spec && spec_migrations();
+#ifdef FREE_INDEX
+    if (idx_ret == 0) {
+        /* an index consistent with the edges: both orders are permutations of the edge ids, insertion order by
+         * non-decreasing left, removal order by non-decreasing right (ties in any order) */
+        int seen_i[NE + 1], seen_o[NE + 1], ok = 1;
+        for (j = 0; j < NE; j++) {
+            seen_i[j] = seen_o[j] = 0;
+        }
+        for (j = 0; j < NE && ok; j++) {
+            tsk_id_t a = t.indexes.edge_insertion_order[j], b = t.indexes.edge_removal_order[j];
+            if (a < 0 || a >= NE || b < 0 || b >= NE) {
+                ok = 0;
+                break;
+            }
+            if (seen_i[a] || seen_o[b]) {
+                ok = 0;
+                break;
+            }
+            seen_i[a] = seen_o[b] = 1;
+        }
+        for (j = 0; j + 1 < NE && ok; j++) {
+            ok = ok && eleft[t.indexes.edge_insertion_order[j]] <= eleft[t.indexes.edge_insertion_order[j + 1]]
+                 && eright[t.indexes.edge_removal_order[j]] <= eright[t.indexes.edge_removal_order[j + 1]];
+        }
+        if (spec && !ok) {
+            sym_reach("bad-index");
+        }
+        spec = spec && ok;
+    }
+#endif
 
     if (ret == 0) {
         sym_reach("accept");
